@@ -102,6 +102,20 @@ def shard(shard_i, nshards, payload):
                 k = text.find(";")
                 text = text[:k] + " ? " + text[k:]
                 kind = "lexical"
+            pool = NON_ASCII_1252 + (NON_ASCII_WIDE if wide else [])
+            if i % 6 == 2:
+                # a long run of multi-byte characters (every alignment against any block size) before an error on
+                # the same line
+                blob = "".join(rng.choice(pool + ["a", " "]) for _ in range(rng.choice([3000, 6000, 12000])))
+                text += "\nPROGRAM big%d\nVAR x : INT; END_VAR\n%s(* %s *) x := undeclared_big;\nEND_PROGRAM\n" % (
+                    i, "a" * rng.randint(0, 3), blob)
+                kind += "+big"
+            if i % 6 == 5:
+                # unterminated string / comment whose text (quoted in the message) is long and non-ASCII
+                blob = "".join(rng.choice(pool + ["a", "b", " "]) for _ in range(rng.randint(100, 400)))
+                text += "\nPROGRAM unterminated%d\nVAR s : STRING; END_VAR\ns := %s%s%s" % (
+                    i, rng.choice(["'", "(* ", '"']), "a" * rng.randint(0, 3), blob)
+                kind += "+unterminated"
             if i % 4 == 1:
                 text = text.replace("\n", "\r\n")
             ref = None
